@@ -188,6 +188,8 @@ start :: fn do
     print("C:\\dir")
     print("x\\065")
     print("ends with \\")
+    print("dir\")
+    print("after")
     print("tab\there")
     print("line\nbreak")
     print("q\d")
